@@ -85,6 +85,13 @@ func (r *InboundRequestSingleFlight) GetOrCreate(ctx *Context, response *GraphQL
 		return nil, nil
 	}
 
+	// A follower receives the leader's rendered bytes verbatim: it does not run its own authorization.
+	// Which fields a request may see is decided by the authorizers on its context, and nothing in the key
+	// below identifies them, so a request that carries one is answered on its own.
+	if ctx.authorizer != nil || ctx.preFetchFieldAuthorizer != nil {
+		return nil, nil
+	}
+
 	// Derive a robust key from request ID, variables hash and (optional) headers hash
 	var b [24]byte
 	binary.LittleEndian.PutUint64(b[0:8], ctx.Request.ID)
